@@ -220,9 +220,16 @@ func (s *Sim) WaitFor(label string, cond func() bool) {
 	for {
 		s.mu.Lock()
 		g := s.byGoid[id]
-		if g == nil || s.down || s.Free || cond() {
+		if g == nil || s.Free || cond() {
 			s.mu.Unlock()
 			return
+		}
+		if s.down {
+			// the run is over and the lock is still held: whoever holds it is stuck for good. Stay
+			// blocked in a way the bubble understands (a mutex wait is not durable and would stall
+			// the end of the bubble)
+			s.mu.Unlock()
+			select {}
 		}
 		s.MutexWaits++
 		p := &parked{g: g, label: label, cond: cond, wake: make(chan struct{})}
